@@ -26,6 +26,19 @@ pub mod shapes_a {
             No = 4,
         }
 
+        impl Mode {
+            pub fn parse(code: u8) -> Mode {
+                if code == 0 {
+                    Mode::Fast
+                } else {
+                    Mode::Slow
+                }
+            }
+            pub fn fastest() -> Mode {
+                Mode::Fast
+            }
+        }
+
         #[diplomat::opaque]
         pub struct Widget(u8);
 
@@ -111,6 +124,27 @@ pub mod shapes_b {
             }
             pub fn bytes(&self, xs: &[u8]) -> u8 {
                 xs.len() as u8
+            }
+        }
+
+        pub trait Listener {
+            fn on_event(&self, x: u32) -> u32;
+        }
+
+        pub trait Observer {
+            fn observe(&self, a: i16, b: i16);
+        }
+
+        #[diplomat::opaque]
+        #[diplomat::attr(not(supports = "traits"), disable)]
+        pub struct Hub(u8);
+
+        impl Hub {
+            pub fn listen(l: impl Listener, x: u32) -> u32 {
+                l.on_event(x)
+            }
+            pub fn watch(o: impl Observer) {
+                o.observe(1, 2);
             }
         }
 
